@@ -268,6 +268,25 @@ package eval
 //@   ensures cond_false: (pE(env, v.If) == nil && isBoolLit(pN(env, v.If), false)) ==> (r == pN(env, v.Else) && err == pE(env, v.Else))
 //@   ensures open: ((errIs(pE(env, v.If), errVariable)) || (pE(env, v.If) == nil && !(pN(env, v.If) is ast.NodeValue))) ==> (errIs(pE(env, v.Then), errIgnore) ? (err == pE(env, v.Then)) : (errIs(pE(env, v.Else), errIgnore) ? (err == pE(env, v.Else)) : (err == nil && r == ast.IsNode(mkstruct(ast.NodeTypeIfThenElse, pN(env, v.If), rightOperand(env, v.Then), rightOperand(env, v.Else))))))
 
+// PartialPolicy: conditions are examined in order. A policy is dropped only because a scope
+// clause is decided false, or because some condition - with no failing condition before it -
+// folded to the constant that falsifies its kind (when false / unless true), or depends on an
+// ignored part under forbid. It is kept up to the first failing condition otherwise.
+//@ spec func stopsAt(env Env, c ast.ConditionType) bool = (hardErr(pE(env, c.Body)) && !errIs(pE(env, c.Body), errIgnore)) || (pE(env, c.Body) == nil && isNonBoolLit(pN(env, c.Body)))
+//@ spec func falsified(env Env, c ast.ConditionType) bool = pE(env, c.Body) == nil && isBoolLit(pN(env, c.Body), !c.Condition)
+//@ spec func ignoredUnder(env Env, c ast.ConditionType, forbid bool) bool = !errIs(pE(env, c.Body), errVariable) && errIs(pE(env, c.Body), errIgnore) && forbid
+//@ func PartialPolicy
+//@   props C06
+//@   requires p != nil
+//@   results policy, keep
+//@   ensures scope_drop: !(partialPrincipalScope#1(env, env.Principal, p.Principal) && partialActionScope#1(env, env.Action, p.Action) && partialResourceScope#1(env, env.Resource, p.Resource)) ==> !keep
+//@   ensures drop_reason: (!keep && partialPrincipalScope#1(env, env.Principal, p.Principal) && partialActionScope#1(env, env.Action, p.Action) && partialResourceScope#1(env, env.Resource, p.Resource)) ==> (exists j int :: 0 <= j && j < len(p.Conditions) && (forall j2 int :: (0 <= j2 && j2 < j) ==> !stopsAt(env, p.Conditions[j2])) && (falsified(env, p.Conditions[j]) || ignoredUnder(env, p.Conditions[j], !p.Effect)))
+//@   ensures keep_reason: keep ==> (forall j int :: (0 <= j && j < len(p.Conditions) && (forall j2 int :: (0 <= j2 && j2 < j) ==> !stopsAt(env, p.Conditions[j2]))) ==> (!falsified(env, p.Conditions[j]) && !ignoredUnder(env, p.Conditions[j], !p.Effect)))
+//@   loop 1
+//@     invariant nostop: forall j int :: (0 <= j && j < $i) ==> !stopsAt(env, p.Conditions[j])
+//@     invariant nofalse: forall j int :: (0 <= j && j < $i) ==> !falsified(env, p.Conditions[j])
+//@     invariant noignore: forall j int :: (0 <= j && j < $i) ==> !ignoredUnder(env, p.Conditions[j], !p.Effect)
+
 // foldPolicy works on a copy: the policy it is given (the one MarshalCedar,
 // MarshalJSON and AST() show) is left as it was, the scope and the effect are
 // carried over, and every condition body is folded in place in the copy.
@@ -323,6 +342,7 @@ package eval
 //@   ensures isin: ((ent is types.EntityUID) && !isVar(ent) && !isIgn(ent) && (in is ast.ScopeTypeIsIn)) ==> result == (ent.(types.EntityUID).Type == in.(ast.ScopeTypeIsIn).Type && reach(env, ent.(types.EntityUID), in.(ast.ScopeTypeIsIn).Entity))
 //@ func partialPrincipalScope
 //@   props C06
+//@   pure
 //@   results out, keep
 //@   ensures isVar(ent) ==> (keep && out == scope)
 //@   ensures !(ent is types.EntityUID) ==> (keep && out == scope)
@@ -331,6 +351,7 @@ package eval
 //@   ensures ((ent is types.EntityUID) && !isVar(ent) && !isIgn(ent) && (scope is ast.ScopeTypeIn)) ==> keep == reach(env, ent.(types.EntityUID), scope.(ast.ScopeTypeIn).Entity)
 //@ func partialActionScope
 //@   props C06
+//@   pure
 //@   results out, keep
 //@   ensures isVar(ent) ==> (keep && out == scope)
 //@   ensures !(ent is types.EntityUID) ==> (keep && out == scope)
@@ -339,6 +360,7 @@ package eval
 //@   ensures ((ent is types.EntityUID) && !isVar(ent) && !isIgn(ent) && (scope is ast.ScopeTypeIn)) ==> keep == reach(env, ent.(types.EntityUID), scope.(ast.ScopeTypeIn).Entity)
 //@ func partialResourceScope
 //@   props C06
+//@   pure
 //@   results out, keep
 //@   ensures isVar(ent) ==> (keep && out == scope)
 //@   ensures !(ent is types.EntityUID) ==> (keep && out == scope)
